@@ -13,11 +13,15 @@ import (
 
 // Analysis runs every rule on one loaded configuration.
 type Analysis struct {
-	kindIs map[*types.Named]int // error types whose Is method compares one field: that field (-1: not of that shape)
-	P      *Program
-	G      *Globals
-	Ef     *Effects
-	R      *Result
+	counters  map[*ssa.Global]bool   // cache of isCounter
+	calledFns map[*ssa.Function]bool // functions some non-test module code calls or uses as a value (counterDiscipline)
+	clsBusy   map[ssa.Value]bool     // classifyErr: values being classified (recursion guard)
+	genPairs  *pairTable             // generator table written as an array of {stem, variable} structs
+	kindIs    map[*types.Named]int   // error types whose Is method compares one field: that field (-1: not of that shape)
+	P         *Program
+	G         *Globals
+	Ef        *Effects
+	R         *Result
 
 	// API entry points, resolved by exported name
 	// (NME, NM, CM, MTS are the functions holding the bodies: a thin forwarding wrapper
@@ -132,12 +136,131 @@ func sameKind(a, b ssa.Instruction) bool {
 	return true
 }
 
+// poolTypes finds the package-level sync.Pool variables that are used as typed free lists:
+// declared with a New function whose every return is a freshly allocated *T, never assigned,
+// address used only as the receiver of Get and Put, and every Put hands back a *T.  What Get
+// yields is then a *T whose content nothing is known about.
+func (a *Analysis) poolTypes() map[*ssa.Global]types.Type {
+	out := map[*ssa.Global]types.Type{}
+	for _, gl := range a.G.AllGlobals {
+		n, ok := gl.Type().(*types.Pointer).Elem().(*types.Named)
+		if !ok || n.Obj().Pkg() == nil || n.Obj().Pkg().Path() != "sync" || n.Obj().Name() != "Pool" {
+			continue
+		}
+		// the New function: stored into the New field by the package initialiser
+		var newFn *ssa.Function
+		good := true
+		for _, w := range a.Ef.Writes[gl] {
+			if w.Test {
+				continue
+			}
+			st, ok := w.Instr.(*ssa.Store)
+			fa, isFA := st.Addr.(*ssa.FieldAddr)
+			if !ok || !w.Synth || !isFA || fa.X != ssa.Value(gl) || newFn != nil {
+				good = false
+				break
+			}
+			switch f := st.Val.(type) {
+			case *ssa.Function:
+				newFn = f
+			case *ssa.MakeClosure:
+				if len(f.Bindings) == 0 {
+					newFn, _ = f.Fn.(*ssa.Function)
+				}
+			}
+		}
+		if !good || newFn == nil || len(newFn.Blocks) == 0 {
+			continue
+		}
+		var elem types.Type
+		for _, ret := range returnsOf(newFn) {
+			mi, ok := ret.Results[0].(*ssa.MakeInterface)
+			if !ok {
+				good = false
+				break
+			}
+			al, ok := mi.X.(*ssa.Alloc)
+			if !ok || !al.Heap || (elem != nil && !types.Identical(elem, al.Type())) {
+				good = false
+				break
+			}
+			elem = al.Type()
+		}
+		if !good || elem == nil {
+			continue
+		}
+		for _, u := range a.Ef.AddrUse[gl] {
+			if a.P.IsTestFunc(u.Parent()) {
+				continue
+			}
+			c, ok := u.(ssa.CallInstruction)
+			if !ok || len(c.Common().Args) == 0 || c.Common().Args[0] != ssa.Value(gl) {
+				good = false
+				break
+			}
+			switch calleeName(c) {
+			case "(*sync.Pool).Get":
+			case "(*sync.Pool).Put":
+				mi, ok := c.Common().Args[1].(*ssa.MakeInterface)
+				if !ok || !types.Identical(mi.X.Type(), elem) {
+					good = false
+				}
+			default:
+				good = false
+			}
+		}
+		// only what the evaluator models as "a buffer with stale content": a pointer to a byte
+		// array.  Anything else (a struct with a cursor, a hash state) stays shared mutable state
+		// as far as E1 is concerned.
+		if pt, ok := elem.(*types.Pointer); ok {
+			if at, ok := pt.Elem().Underlying().(*types.Array); ok {
+				if b, ok := at.Elem().Underlying().(*types.Basic); !ok || b.Kind() != types.Uint8 {
+					good = false
+				}
+			} else {
+				good = false
+			}
+		} else {
+			good = false
+		}
+		if good && len(a.Ef.Escapes[gl]) == 0 {
+			out[gl] = elem
+		}
+	}
+	return out
+}
+
 // NewAnalysis resolves the anchors and runs all rules.
 func NewAnalysis(p *Program) *Analysis {
 	a := &Analysis{P: p, R: NewResult(), evals: map[string]*Eval{}, ListLang: map[*ssa.Global]*SpecLang{}, ListOfLang: map[string]*ssa.Global{},
 		SwapStores: map[ssa.Instruction]bool{}, MapList: map[*ssa.Global]*ssa.Global{}, EncList: map[string]*ssa.Global{}, MapOf: map[string]*ssa.Global{}, OnceFn: map[*ssa.Global]*ssa.Function{}}
 	a.G = BuildGlobals(p)
 	a.Ef = BuildEffects(p)
+	a.G.PoolElem = a.poolTypes()
+	// function-valued package variables that only their declaration assigns and whose address
+	// is never taken (seams for tests): calls through them are calls of that function
+	a.G.SeamOK = map[*ssa.Global]bool{}
+	for gl, iv := range a.G.Init {
+		if _, isFn := iv.(FuncV); !isFn {
+			continue
+		}
+		ok := true
+		for _, w := range a.Ef.Writes[gl] {
+			if !w.Test && !(w.Synth && w.Kind == "store") {
+				ok = false
+			}
+		}
+		for _, u := range a.Ef.AddrUse[gl] {
+			if !p.IsTestFunc(u.Parent()) {
+				ok = false
+			}
+		}
+		if len(a.Ef.Escapes[gl]) > 0 {
+			ok = false
+		}
+		a.G.SeamOK[gl] = ok
+	}
+	a.G.SentAlias = a.sentinelAliases()
 	a.NME = p.Root.Func("NewMnemonicByEntropy")
 	a.NM = p.Root.Func("NewMnemonic")
 	a.CM = p.Root.Func("CheckMnemonic")
@@ -226,6 +349,10 @@ func (a *Analysis) thinTarget(fn *ssa.Function) *ssa.Function {
 	for _, in := range fn.Blocks[0].Instrs {
 		switch x := in.(type) {
 		case *ssa.DebugRef, *ssa.Extract:
+		case *ssa.UnOp:
+			if loadedGlobal(x) == nil {
+				return nil
+			}
 		case *ssa.Call:
 			if call != nil {
 				return nil
@@ -244,13 +371,32 @@ func (a *Analysis) thinTarget(fn *ssa.Function) *ssa.Function {
 	if g == nil || !a.isModuleFunc(g) || g.Parent() != nil || len(g.Blocks) == 0 || g == fn {
 		return nil
 	}
-	if len(call.Call.Args) != len(fn.Params) || len(g.Params) != len(fn.Params) {
+	if len(g.Params) != len(call.Call.Args) || len(call.Call.Args) < len(fn.Params) {
 		return nil
 	}
-	for i, p := range fn.Params {
-		if call.Call.Args[i] != ssa.Value(p) {
+	// the wrapper's own parameters, in order; any other argument is the value of a
+	// package-level variable (a collaborator handed down: the randomness source, a word list)
+	next := 0
+	extra := map[*ssa.Parameter]*ssa.Global{}
+	for i, arg := range call.Call.Args {
+		if next < len(fn.Params) && arg == ssa.Value(fn.Params[next]) {
+			next++
+			continue
+		}
+		gl := loadedGlobal(arg)
+		if gl == nil || gl.Pkg == nil || !a.P.InModule(gl.Pkg) {
 			return nil
 		}
+		extra[g.Params[i]] = gl
+	}
+	if next != len(fn.Params) {
+		return nil
+	}
+	for p, gl := range extra {
+		if a.P.paramGlobal == nil {
+			a.P.paramGlobal = map[*ssa.Parameter]*ssa.Global{}
+		}
+		a.P.paramGlobal[p] = gl
 	}
 	nres := g.Signature.Results().Len()
 	resultOf := func(v ssa.Value) int {
@@ -275,6 +421,73 @@ func (a *Analysis) thinTarget(fn *ssa.Function) *ssa.Function {
 		}
 	default:
 		return nil
+	}
+	return g
+}
+
+// sentinelAliases: an exported sentinel declared as the value of another error variable of the
+// module (`ErrWordLen = sizes.ErrWordLen`, the root package re-exporting it) holds that
+// variable's value for the life of the program when each of the two is assigned by its
+// declaration only and the other variable's address goes nowhere: a load of the inner variable
+// is then the exported sentinel.  The map goes from the inner variable to the exported one; an
+// inner variable two sentinels are declared from maps to nil.
+func (a *Analysis) sentinelAliases() map[*ssa.Global]*ssa.Global {
+	out := map[*ssa.Global]*ssa.Global{}
+	onlyDecl := func(g *ssa.Global) *ssa.Store {
+		var st *ssa.Store
+		n := 0
+		for _, w := range a.Ef.Writes[g] {
+			if w.Test {
+				continue
+			}
+			n++
+			if w.Synth && w.Kind == "store" {
+				st, _ = w.Instr.(*ssa.Store)
+			}
+		}
+		if n != 1 {
+			return nil
+		}
+		return st
+	}
+	for _, name := range []string{"ErrWordLen", "ErrEntropyLen", "ErrChecksumIncorrect"} {
+		r, _ := a.P.Root.Members[name].(*ssa.Global)
+		if r == nil {
+			continue
+		}
+		st := onlyDecl(r)
+		if st == nil {
+			continue
+		}
+		h := loadedGlobal(st.Val)
+		if h == nil || h == r || h.Pkg == nil || !a.P.InModule(h.Pkg) || !isErrorType(h.Type().(*types.Pointer).Elem()) {
+			continue
+		}
+		if onlyDecl(h) == nil || len(a.Ef.Escapes[h]) > 0 {
+			continue
+		}
+		quiet := true
+		for _, u := range a.Ef.AddrUse[h] {
+			if !a.P.IsTestFunc(u.Parent()) {
+				quiet = false
+			}
+		}
+		if !quiet {
+			continue
+		}
+		if _, dup := out[h]; dup {
+			out[h] = nil
+			continue
+		}
+		out[h] = r
+	}
+	return out
+}
+
+// canonSentinel: the exported sentinel g stands for (g itself unless it is re-exported).
+func (a *Analysis) canonSentinel(g *ssa.Global) *ssa.Global {
+	if r := a.G.SentAlias[g]; r != nil {
+		return r
 	}
 	return g
 }
